@@ -31,9 +31,9 @@ MatchWild(out, x) ==
          /\ SubSeq(out, Len(out) - Len(segs[n]) + 1, Len(out)) = segs[n]
          /\ Middle(out, segs, 2, Len(segs[1]) + 1, Len(out) - Len(segs[n]))
 \* matching with wildcards is quadratic: an expected text with hundreds of unjudged nodes (nested loops over the root) is only
-\* reported as skipped
+\* reported as skipped (quick tier: a handful of events)
 Markers(x) == Cardinality({i \in 1..Len(x) : x[i] = -999})
-TooBig(x) == ~Judgeable(x) /\ (Len(x) > 20000 \/ Markers(x) > 120)
+TooBig(x) == ~Judgeable(x) /\ (Len(x) > 8000 \/ Markers(x) > 48)
 EventOK(e) == LET x == Expected(e) IN
               /\ e.prefix = 1 /\ e.wsame = 1 /\ e.vsame = 1        \* stream only appended to; same for every width; value untouched; second render identical
               /\ (TooBig(x) \/ MatchWild(e.out, x))
